@@ -23,6 +23,24 @@ CHECKS = {
     ),
 }
 
+CHECKS["C03"] = dict(
+    category="proof",
+    text="Lean theorems about the model of SQLLineageHolder._build_digraph and the role predicates: for every DROP/RENAME-free "
+         "history (any length, any tables) the table edges and the source/target/intermediate sets are exactly those the "
+         "per-statement reads/writes imply, self-loop tables are source and target but not intermediate, order and repetition "
+         "are irrelevant; DROP never fails, never changes an edge or another node, and removes the table iff its degree is zero; "
+         "single-pair RENAME never fails and removes the old name; witness that the RENAME hypothesis is needed; D10 witness. "
+         "The model is tied to the code by an EXHAUSTIVE differential of all histories of <=3 abstract statements over 3 tables "
+         "(70 643 histories) against SQLLineageHolder.of, plus two-pair renames under both pair orders and random SQL scripts "
+         "through LineageRunner with a statement tap",
+    design_ref="DESIGN.md §5 C03, Appendix C",
+    note=TB + ". Modelled, not verified: networkx DiGraph/compose/relabel_nodes/remove_edge (Model/Graph.lean re-implements the "
+         "parts used; the correspondence exercises them). RENAME 'puts y exactly in x's place' is proved at the level of "
+         "nodes/edges removal and totality, the role transfer under the PlainLineage hypothesis is checked by the exhaustive "
+         "differential and the implementation-only oracle, not yet a theorem. Known finding D10 (multi-pair RENAME).",
+    technique="Lean 4 proof (invariant over the statement fold) + exhaustive differential correspondence (model driver vs SQLLineageHolder.of)",
+)
+
 NOT_YET = "machinery not built yet (build phase in progress, see DESIGN.md §9)"
 
 
